@@ -2,7 +2,7 @@
     Statements only; proofs are in Proofs/. *)
 From Coq Require Import List NArith ZArith.
 From Cicada Require Import Base.Chars Base.Tag Base.Regex Gen.ShellRegexes Model.Expand Model.ExpandRef
-  Proofs.ExpandBasics Proofs.BraceProofs Proofs.BraceWitness Model.RangeGlobVariant Proofs.RangeGlobVariantProofs.
+  Proofs.ExpandBasics Proofs.BraceProofs Proofs.BraceWitness Proofs.RangeGlobProofs.
 Import ListNotations.
 Local Open Scope N_scope.
 
@@ -57,31 +57,43 @@ Theorem C12_glob : forall W item paths,
   contains_char 42 item = true -> starts_with [39] (trim item) = false -> starts_with [34] (trim item) = false ->
   needs_globbing item = true -> glob W item = Some paths ->
   sel_tokens (glob_sel W) (TNone, item) =
-  map retag (let r := filter (glob_keep (starts_with [46; 42] (basename item))) paths in
+  map retag (let r := filter (glob_keep item (starts_with [46; 42] (basename item))) paths in
              if is_empty r then [item] else r).
 Proof. exact glob_token_spec. Qed.
 Theorem C12_glob_order : forall W toks, (forall t, In t toks -> glob W (snd t) <> None) ->
   expand_glob W toks = Ok (flat_map (sel_tokens (glob_sel W)) toks).
 Proof. exact expand_glob_in_place. Qed.
 
-(** Full statement for ranges as the property words it (text around the braces is kept): false. *)
-Definition C12_full : Prop :=
-  forall pre post a b, (0 <= a <= 9)%Z -> (0 <= b <= 9)%Z ->
-  expand_brace_range [(TNone, pre ++ [123] ++ z_to_dec a ++ [46; 46] ++ z_to_dec b ++ [125] ++ post)]
-  = Ok (map (fun z => retag (pre ++ z_to_dec z ++ post)) (range_ref a b 1)).
-Theorem C12_refuted : ~ C12_full.
-Proof.
-  intros H. specialize (H [97] [98] 1%Z 3%Z). vm_compute in H.
-  assert (X : (0 <= 1 <= 9)%Z /\ (0 <= 3 <= 9)%Z) by (split; split; discriminate).
-  specialize (H (proj1 X) (proj2 X)). discriminate.
-Qed.
+(** Ranges keep the text around the braces (f69a693): for the LEFTMOST match of the range pattern in the token, whose
+    context is the token's own text, every element is pre ++ number ++ post. *)
+Theorem C12_range_affixes : forall t pre g1 g2 g4 post a b s,
+  tag_is_empty (fst t) = true -> rx_search rx_brace_range (snd t) = true ->
+  find_range (snd t) = Some (pre, (g1, g2, g4), post) ->
+  parse_i32 g1 = Some a -> parse_i32 g2 = Some b -> (match g4 with None => Some 1%Z | Some d => parse_i32 d end) = Some s ->
+  range_sel t = Ok (Repl (map (fun z => retag (pre ++ z_to_dec z ++ post)) (range_ref a b s))).
+Proof. exact range_sel_affixes. Qed.
+Theorem C12_range_context : forall s pre caps post,
+  find_range s = Some (pre, caps, post) -> exists mid, s = pre ++ 123 :: mid ++ 125 :: post.
+Proof. exact find_range_ctx_text. Qed.
+(** The range pass never takes an early return (9bedc7c: an operand that does not parse skips that token): it is a
+    flat_map whenever every token's decision is defined. *)
+Theorem C12_order_range : forall toks, (forall t, In t toks -> exists d, range_sel t = Ok d) ->
+  expand_brace_range toks = Ok (flat_map (sel_tokens range_sel) toks).
+Proof. exact expand_brace_range_in_place. Qed.
+(** Hidden directories (7572cd1): a kept path has no directory component with a leading dot unless the pattern component
+    at the same distance from the end has one too; the rule for the last component is unchanged. *)
+Theorem C12_glob_hidden_dir : forall pattern show p, glob_keep pattern show p = true ->
+  glob_keep_last show p = true /\
+  forall k comp, nth_error (dirs_rev p) k = Some comp -> starts_with [46] comp = true -> comp <> [46] -> comp <> [46; 46] ->
+  starts_with [46] (nth k (dirs_rev pattern) []) = true.
+Proof. intros pattern show p H. split; [exact (glob_keep_weaker pattern show p H) | exact (glob_keep_no_hidden_dir pattern show p H)]. Qed.
 
-(** The recorded defects, as computed facts about the model. *)
-Theorem C12_refuted_affixes :
+(** Regression examples for the repaired defects. *)
+Example C12_range_keeps_affixes :
   expand_brace_range [(TNone, [101; 99; 104; 111]); (TNone, [97; 123; 49; 46; 46; 51; 125; 98])]
-  = Ok [(TNone, [101; 99; 104; 111]); (TNone, [49]); (TNone, [50]); (TNone, [51])].
-Proof. exact range_drops_affixes. Qed.
-(** Regression examples for the two repaired defects. *)
+  = Ok [(TNone, [101; 99; 104; 111]); (TNone, [97; 49; 98]); (TNone, [97; 50; 98]); (TNone, [97; 51; 98])].
+Proof. exact range_keeps_affixes. Qed.
+
 Example C12_range_at_limit :
   expand_brace_range [(TNone, [123; 50; 49; 52; 55; 52; 56; 51; 54; 52; 54; 46; 46; 50; 49; 52; 55; 52; 56; 51; 54; 52; 55; 125])]
   = Ok [(TNone, [50; 49; 52; 55; 52; 56; 51; 54; 52; 54]); (TNone, [50; 49; 52; 55; 52; 56; 51; 54; 52; 55])].
@@ -94,29 +106,6 @@ Proof. exact home_with_dollar. Qed.
 Example C12_single_alternative :
   brace_getitem [123; 97; 125; 123; 98; 44; 99; 125] 0 = Ok ([[123; 97; 125; 98]; [123; 97; 125; 99]], []).
 Proof. exact single_alternative_group. Qed.
-
-(** About three PROPOSED repairs (Model/RangeGlobVariant.v transcribes the patched code; notes/C12-fix-3/4/5.patch).
-    fix-3: the text around the braces is kept -- for the leftmost match, whose context is the text of the token. *)
-Theorem C12_variant_affixes : forall t pre g1 g2 g4 post a b s,
-  tag_is_empty (fst t) = true -> rx_search rx_brace_range (snd t) = true ->
-  find_range_ctx (snd t) = Some (pre, (g1, g2, g4), post) ->
-  parse_i32 g1 = Some a -> parse_i32 g2 = Some b -> (match g4 with None => Some 1%Z | Some d => parse_i32 d end) = Some s ->
-  range_sel_v t = Ok (Repl (map (fun z => retag (pre ++ z_to_dec z ++ post)) (range_ref a b s))).
-Proof. exact range_sel_v_affixes. Qed.
-Theorem C12_variant_context : forall s pre caps post,
-  find_range_ctx s = Some (pre, caps, post) -> (exists mid, s = pre ++ 123 :: mid ++ 125 :: post) /\ find_range s = Some caps.
-Proof. intros s pre caps post H. split; [exact (find_range_ctx_text s pre caps post H) | exact (find_range_ctx_agrees s pre caps post H)]. Qed.
-(** fix-4: an operand that does not parse skips that token; the pass never takes the early return, so it is a flat_map. *)
-Theorem C12_variant_never_aborts : forall toks, (forall t, In t toks -> exists d, range_sel_v t = Ok d) ->
-  expand_brace_range_v toks = Ok (flat_map (sel_tokens range_sel_v) toks).
-Proof. exact expand_brace_range_v_in_place. Qed.
-(** fix-5: a kept path has no directory component with a leading dot unless the pattern component at the same distance
-    from the end has one too (a star never matches a leading dot); the old rule for the last component still applies. *)
-Theorem C12_variant_hidden_dir : forall pattern show p, glob_keep_v pattern show p = true ->
-  glob_keep show p = true /\
-  forall k comp, nth_error (dirs_rev p) k = Some comp -> starts_with [46] comp = true -> comp <> [46] -> comp <> [46; 46] ->
-  starts_with [46] (nth k (dirs_rev pattern) []) = true.
-Proof. intros pattern show p H. split; [exact (glob_keep_v_weaker pattern show p H) | exact (glob_keep_v_no_hidden_dir pattern show p H)]. Qed.
 
 Check C12_brace : forall t, wf_term t = true -> brace_getitem (render_term t) 0 = Ok (den_term t, []).
 Check C12_order : forall (sel : token -> res selr) toks,
@@ -148,11 +137,9 @@ Print Assumptions C12_home_other.
 Print Assumptions C12_order_home.
 Print Assumptions C12_glob.
 Print Assumptions C12_glob_order.
-Print Assumptions C12_refuted.
-Print Assumptions C12_refuted_affixes.
+Print Assumptions C12_range_affixes.
+Print Assumptions C12_range_context.
+Print Assumptions C12_order_range.
+Print Assumptions C12_glob_hidden_dir.
 Print Assumptions C12_brace_any_group.
-Print Assumptions C12_variant_affixes.
-Print Assumptions C12_variant_context.
-Print Assumptions C12_variant_never_aborts.
-Print Assumptions C12_variant_hidden_dir.
 Print Assumptions C12_range_total.
